@@ -32,9 +32,12 @@ Inductive cap :=
 | CapExtMsg
 | CapRefresh
 | CapEnhRefresh
-| CapGraceful (flag time : Z) (l : list (fam * Z))
-| CapOther (code : Z) (data : list Z).      (* host name, software version, operational, multisession,
-                                               paths-limit, link-local, cisco variants, unknown codes *)
+| CapGraceful (flag time : Z) (l : list (fam * Z))   (* restart flags, restart time, ((afi, safi), family flags) *)
+| CapHostName (host domain : list Z)        (* utf-8 octets *)
+| CapSoftware (version : list Z)
+| CapPathsLimit (l : list (fam * Z))        (* ((afi, safi), limit) *)
+| CapOther (code : Z) (data : list Z).      (* operational, multisession (value not read), link-local,
+                                               cisco variants, unknown codes *)
 
 Record open := { o_version : Z; o_asn : Z; o_hold : Z; o_rid : Z; o_caps : list cap }.
 
@@ -51,10 +54,12 @@ Record capset := {
   cs_asn4 : option Z;
   cs_ap : option (list (fam * Z));
   cs_nh : option (list nhop);
-  cs_ext : bool; cs_rr : bool; cs_err : bool }.
+  cs_pl : option (list (fam * Z));
+  cs_ext : bool; cs_rr : bool; cs_err : bool; cs_ms : bool }.
 
 Definition cs_empty : capset :=
-  {| cs_mp := None; cs_asn4 := None; cs_ap := None; cs_nh := None; cs_ext := false; cs_rr := false; cs_err := false |}.
+  {| cs_mp := None; cs_asn4 := None; cs_ap := None; cs_nh := None; cs_pl := None;
+     cs_ext := false; cs_rr := false; cs_err := false; cs_ms := false |}.
 
 Definition odflt {A} (o : option (list A)) : list A := match o with Some l => l | None => [] end.
 Definition is_some {A} (o : option A) : bool := match o with Some _ => true | None => false end.
@@ -69,32 +74,52 @@ Fixpoint ap_set (d : list (fam * Z)) (e : fam * Z) : list (fam * Z) :=
   | [] => [e]
   | x :: d' => if fam_eqb (fst e) (fst x) then (fst x, snd e) :: d' else x :: ap_set d' e
   end.
+(* PathsLimit.unpack_capability: a zero limit is skipped, the first tuple of a family is kept *)
+Definition pl_add (d : list (fam * Z)) (e : fam * Z) : list (fam * Z) :=
+  if snd e =? 0 then d else if memf (fst e) (map fst d) then d else d ++ [e].
+
+Definition set_mp (cs : capset) v := {| cs_mp := v; cs_asn4 := cs_asn4 cs; cs_ap := cs_ap cs; cs_nh := cs_nh cs; cs_pl := cs_pl cs;
+  cs_ext := cs_ext cs; cs_rr := cs_rr cs; cs_err := cs_err cs; cs_ms := cs_ms cs |}.
+Definition set_asn4 (cs : capset) v := {| cs_mp := cs_mp cs; cs_asn4 := v; cs_ap := cs_ap cs; cs_nh := cs_nh cs; cs_pl := cs_pl cs;
+  cs_ext := cs_ext cs; cs_rr := cs_rr cs; cs_err := cs_err cs; cs_ms := cs_ms cs |}.
+Definition set_ap (cs : capset) v := {| cs_mp := cs_mp cs; cs_asn4 := cs_asn4 cs; cs_ap := v; cs_nh := cs_nh cs; cs_pl := cs_pl cs;
+  cs_ext := cs_ext cs; cs_rr := cs_rr cs; cs_err := cs_err cs; cs_ms := cs_ms cs |}.
+Definition set_nh (cs : capset) v := {| cs_mp := cs_mp cs; cs_asn4 := cs_asn4 cs; cs_ap := cs_ap cs; cs_nh := v; cs_pl := cs_pl cs;
+  cs_ext := cs_ext cs; cs_rr := cs_rr cs; cs_err := cs_err cs; cs_ms := cs_ms cs |}.
+Definition set_pl (cs : capset) v := {| cs_mp := cs_mp cs; cs_asn4 := cs_asn4 cs; cs_ap := cs_ap cs; cs_nh := cs_nh cs; cs_pl := v;
+  cs_ext := cs_ext cs; cs_rr := cs_rr cs; cs_err := cs_err cs; cs_ms := cs_ms cs |}.
+Definition set_ext (cs : capset) := {| cs_mp := cs_mp cs; cs_asn4 := cs_asn4 cs; cs_ap := cs_ap cs; cs_nh := cs_nh cs; cs_pl := cs_pl cs;
+  cs_ext := true; cs_rr := cs_rr cs; cs_err := cs_err cs; cs_ms := cs_ms cs |}.
+Definition set_rr (cs : capset) := {| cs_mp := cs_mp cs; cs_asn4 := cs_asn4 cs; cs_ap := cs_ap cs; cs_nh := cs_nh cs; cs_pl := cs_pl cs;
+  cs_ext := cs_ext cs; cs_rr := true; cs_err := cs_err cs; cs_ms := cs_ms cs |}.
+Definition set_err (cs : capset) := {| cs_mp := cs_mp cs; cs_asn4 := cs_asn4 cs; cs_ap := cs_ap cs; cs_nh := cs_nh cs; cs_pl := cs_pl cs;
+  cs_ext := cs_ext cs; cs_rr := cs_rr cs; cs_err := true; cs_ms := cs_ms cs |}.
+Definition set_ms (cs : capset) := {| cs_mp := cs_mp cs; cs_asn4 := cs_asn4 cs; cs_ap := cs_ap cs; cs_nh := cs_nh cs; cs_pl := cs_pl cs;
+  cs_ext := cs_ext cs; cs_rr := cs_rr cs; cs_err := cs_err cs; cs_ms := true |}.
 
 (* Capabilities.unpack: capabilities[code] = Capability.unpack(code, capabilities, value); the
    instance handed to unpack_capability is the one already stored under that code, if any *)
 Definition add_cap (cs : capset) (c : cap) : capset :=
   match c with
-  | CapMP f => {| cs_mp := Some (mp_add (odflt (cs_mp cs)) f); cs_asn4 := cs_asn4 cs; cs_ap := cs_ap cs;
-                  cs_nh := cs_nh cs; cs_ext := cs_ext cs; cs_rr := cs_rr cs; cs_err := cs_err cs |}
-  | CapASN4 a => {| cs_mp := cs_mp cs; cs_asn4 := Some a; cs_ap := cs_ap cs;
-                  cs_nh := cs_nh cs; cs_ext := cs_ext cs; cs_rr := cs_rr cs; cs_err := cs_err cs |}
-  | CapAddPath l => {| cs_mp := cs_mp cs; cs_asn4 := cs_asn4 cs; cs_ap := Some (fold_left ap_set l (odflt (cs_ap cs)));
-                  cs_nh := cs_nh cs; cs_ext := cs_ext cs; cs_rr := cs_rr cs; cs_err := cs_err cs |}
-  | CapNextHop l => {| cs_mp := cs_mp cs; cs_asn4 := cs_asn4 cs; cs_ap := cs_ap cs;
-                  cs_nh := Some (fold_left nh_add l (odflt (cs_nh cs))); cs_ext := cs_ext cs; cs_rr := cs_rr cs; cs_err := cs_err cs |}
-  | CapExtMsg => {| cs_mp := cs_mp cs; cs_asn4 := cs_asn4 cs; cs_ap := cs_ap cs;
-                  cs_nh := cs_nh cs; cs_ext := true; cs_rr := cs_rr cs; cs_err := cs_err cs |}
-  | CapRefresh => {| cs_mp := cs_mp cs; cs_asn4 := cs_asn4 cs; cs_ap := cs_ap cs;
-                  cs_nh := cs_nh cs; cs_ext := cs_ext cs; cs_rr := true; cs_err := cs_err cs |}
-  | CapEnhRefresh => {| cs_mp := cs_mp cs; cs_asn4 := cs_asn4 cs; cs_ap := cs_ap cs;
-                  cs_nh := cs_nh cs; cs_ext := cs_ext cs; cs_rr := cs_rr cs; cs_err := true |}
+  | CapMP f => set_mp cs (Some (mp_add (odflt (cs_mp cs)) f))
+  | CapASN4 a => set_asn4 cs (Some a)
+  | CapAddPath l => set_ap cs (Some (fold_left ap_set l (odflt (cs_ap cs))))
+  | CapNextHop l => set_nh cs (Some (fold_left nh_add l (odflt (cs_nh cs))))
+  | CapPathsLimit l => set_pl cs (Some (fold_left pl_add l (odflt (cs_pl cs))))
+  | CapExtMsg => set_ext cs
+  | CapRefresh => set_rr cs
+  | CapEnhRefresh => set_err cs
+  | CapOther code _ => if code =? CAP_MULTISESSION then set_ms cs else cs
   | CapGraceful _ _ _ => cs
-  | CapOther _ _ => cs
+  | CapHostName _ _ => cs
+  | CapSoftware _ => cs
   end.
 
 Definition fold_caps (l : list cap) : capset := fold_left add_cap l cs_empty.
 
 (* ------------------------------------------------------------------ Negotiated._negotiate *)
+
+Inductive ms_state := MsNo | MsYes | MsRefuse (code sub : Z).
 
 Record negotiated := {
   n_families : list fam;
@@ -106,7 +131,10 @@ Record negotiated := {
   n_nexthop : list nhop;
   n_refresh : Z;
   n_msg_size : Z;
-  n_holdtime : Z }.
+  n_holdtime : Z;
+  n_paths_limit : list (fam * Z);      (* Negotiated.paths_limit: what the peer asks us not to exceed *)
+  n_adv_paths_limit : list (fam * Z);  (* Negotiated.advertised_paths_limit *)
+  n_ms : ms_state }.                    (* Negotiated.multisession: False / True / (code, subcode, text) *)
 
 (* dict.get(k, CANT) *)
 Definition ap_get (d : list (fam * Z)) (k : fam) : Z :=
@@ -125,6 +153,15 @@ Definition ap_setup_recv (send receive : list (fam * Z)) : list (fam * bool) :=
 (* RequirePath.send / receive: dict.get((afi, safi), False) *)
 Definition ap_lookup (d : list (fam * bool)) (k : fam) : bool :=
   match find (fun e => fam_eqb k (fst e)) d with Some e => snd e | None => false end.
+
+Fixpoint fams_eqb (a b : list fam) : bool :=
+  match a, b with
+  | [], [] => true
+  | x :: a', y :: b' => fam_eqb x y && fams_eqb a' b'
+  | _, _ => false end.
+(* dict.get for the paths-limit tables *)
+Definition pl_lookup (d : list (fam * Z)) (k : fam) : option Z :=
+  match find (fun e => fam_eqb k (fst e)) d with Some e => Some (snd e) | None => None end.
 
 (* fx = Gen_Registry.LOCAL_AS_FROM_CAP: false is `self.local_as = self.sent_open.asn` alone; true is
    that line followed by "when the field is AS_TRANS and we sent an ASN4 capability, take its value" *)
@@ -155,7 +192,25 @@ Definition negotiate_g (fx : bool) (s r : open) : negotiated :=
      n_refresh :=
        (if cs_err rc && cs_err sc then REFRESH_ENHANCED
         else if cs_rr rc && cs_rr sc then REFRESH_NORMAL else REFRESH_ABSENT);
-     n_msg_size := (if cs_ext rc && cs_ext sc then MSG_EXTENDED_SIZE else MSG_INITIAL_SIZE) |}.
+     n_msg_size := (if cs_ext rc && cs_ext sc then MSG_EXTENDED_SIZE else MSG_INITIAL_SIZE);
+     n_paths_limit :=
+       (match cs_ap rc, cs_ap sc, cs_pl rc with
+        | Some rap, Some sap, Some rpl =>
+            filter (fun e => memf (fst e) (map fst rap) && ap_lookup (ap_setup_send sap rap) (fst e)) rpl
+        | _, _, _ => [] end);
+     n_adv_paths_limit :=
+       (match cs_ap rc, cs_ap sc, cs_pl sc with
+        | Some rap, Some sap, Some spl =>
+            filter (fun e => memf (fst e) (map fst sap) && ap_lookup (ap_setup_recv sap rap) (fst e)) spl
+        | _, _, _ => [] end);
+     (* we never send the cisco variant, so only the draft code can be common; the received
+        MultiSession value is not parsed (an empty set, read as {MULTIPROTOCOL}), like the one we send *)
+     n_ms :=
+       (if cs_ms sc && cs_ms rc then
+          match cs_mp rc with
+          | Some rl => if fams_eqb (odflt (cs_mp sc)) rl then MsYes else MsRefuse 2 8
+          | None => MsRefuse 2 8 end
+        else if cs_ms sc then MsRefuse 2 9 else MsNo) |}.
 
 (* ------------------------------------------------------------------ neighbor configuration -> our OPEN *)
 
@@ -169,16 +224,20 @@ Record cfg := {
   c_refresh : bool; c_operational : bool; c_extmsg : bool;
   c_host : list Z; c_domain : list Z;                      (* utf-8 bytes *)
   c_software : list Z;                                     (* bytes of the version string, [] = not sent *)
-  c_linklocal : bool }.
+  c_linklocal : bool;
+  c_paths_limit : list (fam * Z);                          (* capability.paths_limit_per_family.items() *)
+  c_multisession : bool }.
 
 (* ASN.trans *)
 Definition trans (a : Z) : Z := if a >? ASN_MAX_2BYTE then AS_TRANS else a.
 
-(* HostName.extract_capability_bytes *)
-Definition hostname_bytes (h d : list Z) : list Z :=
-  let h' := firstn (Z.to_nat HOSTNAME_MAX_LEN) h in
-  let d' := firstn (Z.to_nat HOSTNAME_MAX_LEN) d in
-  Z.of_nat (length h') :: h' ++ Z.of_nat (length d') :: d'.
+(* HostName.extract_capability_bytes truncates both names *)
+Definition trunc_name (h : list Z) : list Z := firstn (Z.to_nat HOSTNAME_MAX_LEN) h.
+
+(* Capabilities._pathslimit *)
+Definition our_paths_limit (c : cfg) : list (fam * Z) :=
+  filter (fun e => memf (fst e) (filter (fun f => memf f (c_addpaths c)) ADD_PATH_TABLE)
+                   && bit_recv (c_addpath c) && (0 <? snd e)) (c_paths_limit c).
 
 Definition opt (b : bool) (l : list cap) : list cap := if b then l else [].
 
@@ -190,14 +249,17 @@ Definition caps_of_config (c : cfg) : list cap :=
   ++ opt (c_nexthop c) [CapNextHop (filter (fun n => memn n (c_nexthops c)) NEXTHOP_TABLE)]
   ++ opt (negb (c_addpath c =? 0))
        [CapAddPath (map (fun f => (f, c_addpath c)) (filter (fun f => memf f (c_addpaths c)) ADD_PATH_TABLE))]
+  ++ opt (negb (c_addpath c =? 0) && negb (Nat.eqb (length (our_paths_limit c)) 0)) [CapPathsLimit (our_paths_limit c)]
   ++ opt (c_gr c) [CapGraceful (if c_restarted c then GR_RESTART_STATE else 0) (c_gr_time c mod (GR_TIME_MASK + 1))
                      (map (fun f => (f, GR_FORWARDING_STATE)) (c_families c))]
   ++ opt (c_refresh c) [CapRefresh; CapEnhRefresh]
   ++ opt (c_operational c) [CapOther CAP_OPERATIONAL []]
   ++ opt (c_extmsg c) [CapExtMsg]
-  ++ opt (negb (Nat.eqb (length (c_host c)) 0)) [CapOther CAP_HOSTNAME (hostname_bytes (c_host c) (c_domain c))]
-  ++ opt (negb (Nat.eqb (length (c_software c)) 0)) [CapOther CAP_SOFTWARE_VERSION (Z.of_nat (length (c_software c)) :: c_software c)]
-  ++ opt (c_linklocal c) [CapOther CAP_LINK_LOCAL_NEXTHOP []].
+  ++ opt (negb (Nat.eqb (length (c_host c)) 0)) [CapHostName (trunc_name (c_host c)) (trunc_name (c_domain c))]
+  ++ opt (negb (Nat.eqb (length (c_software c)) 0)) [CapSoftware (c_software c)]
+  ++ opt (c_linklocal c) [CapOther CAP_LINK_LOCAL_NEXTHOP []]
+  (* MultiSession.extract_capability_bytes yields two values, hence two TLVs: [0] and [MULTIPROTOCOL] *)
+  ++ opt (c_multisession c) [CapOther CAP_MULTISESSION [0]; CapOther CAP_MULTISESSION [CAP_MULTIPROTOCOL]].
 
 (* Protocol.new_open + Open.make_open *)
 Definition open_of (c : cfg) : open :=
@@ -206,14 +268,14 @@ Definition open_of (c : cfg) : open :=
 
 Definition negotiate (c : cfg) (r : open) : negotiated := negotiate_g LOCAL_AS_FROM_CAP (open_of c) r.
 
-(* Negotiated.validate (multi-session not configured).  fy = Gen_Registry.COLLISION_ON_TRUE_AS: false is
+(* Negotiated.validate.  fy = Gen_Registry.COLLISION_ON_TRUE_AS: false is
    `self.received_open.asn == neighbor.session.local_as`, true is `self.peer_as == ...` *)
 Definition validate_g (fy : bool) (c : cfg) (r : open) (n : negotiated) : option (Z * Z) :=
   if negb (c_peer_as c =? 0) && negb (n_peer_as n =? c_peer_as c) then Some (2, 2)
   else if o_rid r =? 0 then Some (2, 3)
   else if ((if fy then n_peer_as n else o_asn r) =? c_local_as c) && (o_rid r =? c_rid c) then Some (2, 3)
   else if negb (o_hold r =? 0) && (o_hold r <? HOLD_MIN) then Some (2, 6)
-  else None.
+  else match n_ms n with MsRefuse a b => Some (a, b) | _ => None end.
 
 Definition validate (c : cfg) (r : open) : option (Z * Z) :=
   validate_g COLLISION_ON_TRUE_AS c r (negotiate c r).
@@ -227,6 +289,7 @@ Definition rd16 (l : list Z) : Z := nth 0 l 0 * 256 + nth 1 l 0.
 Definition rd32 (l : list Z) : Z := ((nth 0 l 0 * 256 + nth 1 l 0) * 256 + nth 2 l 0) * 256 + nth 3 l 0.
 
 Definition enc_ap_entry (e : fam * Z) : list Z := be16 (fst (fst e)) ++ [snd (fst e); snd e].
+Definition enc_pl_entry (e : fam * Z) : list Z := be16 (fst (fst e)) ++ [snd (fst e)] ++ be16 (snd e).
 Definition enc_nh_entry (n : nhop) : list Z :=
   match n with (a, s, h) => be16 a ++ [0; s] ++ be16 h end.
 
@@ -241,6 +304,9 @@ Definition enc_cap (c : cap) : Z * list Z :=
   | CapRefresh => (CAP_ROUTE_REFRESH, [])
   | CapEnhRefresh => (CAP_ENHANCED_ROUTE_REFRESH, [])
   | CapGraceful flag time l => (CAP_GRACEFUL_RESTART, be16 (flag * 4096 + time mod (GR_TIME_MASK + 1)) ++ flat_map enc_ap_entry l)
+  | CapHostName h d => (CAP_HOSTNAME, len h :: h ++ len d :: d)
+  | CapSoftware v => (CAP_SOFTWARE_VERSION, len v :: v)
+  | CapPathsLimit l => (CAP_PATHS_LIMIT, flat_map enc_pl_entry (filter (fun e => 0 <? snd e) l))
   | CapOther code data => (code, data)
   end.
 
@@ -277,6 +343,14 @@ Fixpoint parse_nh (d : list Z) : res (list nhop) :=
   | _ => n20
   end.
 
+Fixpoint parse_pl (d : list Z) : res (list (fam * Z)) :=
+  match d with
+  | [] => Ok []
+  | a1 :: a2 :: s :: l1 :: l2 :: rest =>
+      match parse_pl rest with Ok l => Ok (((a1 * 256 + a2, s), l1 * 256 + l2) :: l) | Notify a b => Notify a b end
+  | _ => n20
+  end.
+
 (* <cls>.unpack_capability(instance, value, code) for every registered class; the fallback class
    (UnknownCapability) keeps the bytes.  Only the outcome class and what _negotiate reads are kept. *)
 Definition parse_cap (code : Z) (d : list Z) : res cap :=
@@ -304,18 +378,19 @@ Definition parse_cap (code : Z) (d : list Z) : res cap :=
   else if code =? CAP_HOSTNAME then
     match d with
     | [] => n20
-    | l1 :: _ =>
+    | l1 :: rest =>
         if len d <? l1 + 2 then n20
-        else if len d <? l1 + 2 + nth (Z.to_nat (l1 + 1)) d 0 then n20
-        else Ok (CapOther code d)
+        else let l2 := nth (Z.to_nat l1) rest 0 in
+          if len d <? l1 + 2 + l2 then n20
+          else Ok (CapHostName (firstn (Z.to_nat l1) rest) (firstn (Z.to_nat l2) (skipn (S (Z.to_nat l1)) rest)))
     end
   else if code =? CAP_SOFTWARE_VERSION then
     match d with
     | [] => n20
-    | l1 :: _ => if len d <? l1 + 1 then n20 else Ok (CapOther code d)
+    | l1 :: rest => if len d <? l1 + 1 then n20 else Ok (CapSoftware (firstn (Z.to_nat l1) rest))
     end
   else if code =? CAP_PATHS_LIMIT then
-    if (len d) mod 5 =? 0 then Ok (CapOther code d) else n20
+    match parse_pl d with Ok l => Ok (CapPathsLimit l) | Notify a b => Notify a b end
   else Ok (CapOther code d).
 
 (* _key_values / _extended_type_length: (key, value, rest) *)
